@@ -15,6 +15,7 @@
   coordinates (unbounded decimal rendering), any score / colour / names without a tab.
 -/
 import BioCantor.Proofs.BedModel
+set_option autoImplicit false   -- an unresolved name in a statement must be an error, never a bound variable
 namespace BioCantor.Props.C14
 open BioCantor BioCantor.Spec.Bed BioCantor.Model.Bed BioCantor.Proofs.Bed
 
